@@ -142,6 +142,8 @@ type ceEnv struct {
 	memo   map[*ssa.Call][]av
 	// hook: optional evaluation of values the generic evaluator does not know
 	hook func(e *ceEnv, v ssa.Value) (av, bool)
+	// values known to be non-nil on the current path (a branch `v != nil` was taken)
+	refinedNonNil map[ssa.Value]bool
 }
 
 func newCE(p *Program) *ceEnv {
@@ -621,6 +623,19 @@ func (e *ceEnv) evalCall(call *ssa.Call) []av {
 			informative = true
 		}
 	}
+	// a pointer to a record some of whose fields carry class information (the options struct handed
+	// on to a validation helper)
+	if !informative {
+		for _, a := range call.Call.Args {
+			if nm := namedOf(a.Type()); nm != "" && structOf(a.Type()) != nil {
+				for k := range e.fields {
+					if strings.HasPrefix(k, nm+".") {
+						informative = true
+					}
+				}
+			}
+		}
+	}
 	if !informative {
 		n := 0
 		for _, b := range callee.Blocks {
@@ -643,6 +658,20 @@ func (e *ceEnv) evalCall(call *ssa.Call) []av {
 		}
 	}
 	rets, complete := sub.run(callee)
+	if complete && len(rets) == 0 {
+		// every path of the callee under this class ends in a failure return (they are dropped by
+		// run): the error result is certainly non-nil
+		var lt types.Type = call.Type()
+		if tup, ok := call.Type().(*types.Tuple); ok && tup.Len() > 0 {
+			lt = tup.At(tup.Len() - 1).Type()
+		}
+		if isErrorType(lt) {
+			res := append([]av{}, unk...)
+			res[nres-1] = av{isNil: triFalse, b: triUnknown, nonEmpty: triUnknown, sign: sgAny}
+			e.memo[call] = res
+			return res
+		}
+	}
 	if !complete || len(rets) == 0 {
 		e.memo[call] = unk
 		return unk
@@ -690,6 +719,13 @@ func (e *ceEnv) isFailureReturn(ret *ssa.Return) bool {
 		break
 	}
 	a := e.eval(last)
+	if len(a.syms) == 0 && a.isNil == triFalse && !a.isSlice {
+		return true // the error a helper returned on all of its paths under this class
+	}
+	// on a path that passed `err != nil` the returned err is non-nil
+	if len(a.syms) == 0 && e.refinedNonNil[last] {
+		return true
+	}
 	if len(a.syms) == 0 {
 		// a call constructing an error (errors.New, fmt.Errorf, ...)
 		if c, ok := last.(*ssa.Call); ok {
@@ -854,6 +890,26 @@ func (e *ceEnv) refine(cond ssa.Value, truth bool) func() {
 	bin, ok := cond.(*ssa.BinOp)
 	if !ok {
 		return func() {}
+	}
+	// v != nil taken (or v == nil not taken): v is non-nil on this path
+	if bin.Op == token.NEQ || bin.Op == token.EQL {
+		isNilC := func(x ssa.Value) bool { k, ok := x.(*ssa.Const); return ok && k.IsNil() }
+		var nv ssa.Value
+		if isNilC(bin.Y) {
+			nv = bin.X
+		} else if isNilC(bin.X) {
+			nv = bin.Y
+		}
+		if nv != nil && ((bin.Op == token.NEQ) == truth) {
+			if e.refinedNonNil == nil {
+				e.refinedNonNil = map[ssa.Value]bool{}
+			}
+			if !e.refinedNonNil[nv] {
+				e.refinedNonNil[nv] = true
+				return func() { delete(e.refinedNonNil, nv) }
+			}
+			return func() {}
+		}
 	}
 	var v ssa.Value
 	var k int64
